@@ -6,17 +6,18 @@ Events == ndJsonDeserialize(IOEnv.VERIF_EVENTS)
 NE == Len(Events)
 StepFail(cfg, st, s) ==
   LET r == Step({}, cfg, st, s.a) IN
-     (IF s.res \notin r.res THEN {"outcome"} ELSE {})
-  \cup (IF s.st # r.st THEN {"state"} ELSE {})
-  \cup (IF s.res = "ok" /\ s.val # r.val THEN {"value"} ELSE {})
+     (IF "unspecified" \notin r.res /\ s.res \notin r.res THEN {"outcome"} ELSE {})
+  \cup (IF "unspecified" \notin r.res /\ s.st # r.st THEN {"state"} ELSE {})
+  \cup (IF "unspecified" \notin r.res /\ s.res = "ok" /\ s.val # r.val THEN {"value"} ELSE {})
   \cup (IF s.res # "ok" /\ s.st # st THEN {"atomic"} ELSE {})
   \cup (IF s.a.op = "read_alias" /\ s.res = "ok" /\ st.target = N /\ (cfg.pt \/ st.ov = N) /\ cfg.fb = "mut" /\ ~s.fresh THEN {"fallback_not_fresh"} ELSE {})
-  \cup (IF s.a.op \in {"cow_alias", "cow_target", "deepcopy"} /\ s.res = "ok" /\ ~s.orig_same THEN {"copy_changed_original"} ELSE {})
+  \cup (IF s.a.op \in {"cow_alias", "cow_target", "deepcopy", "cow_item_alias", "cow_item_target"} /\ s.res = "ok" /\ ~s.orig_same THEN {"copy_changed_original"} ELSE {})
   \cup (IF cfg.dep /\ IsAliasAccess(s.a) /\ s.res # "TypeError" /\ s.warns < 1 THEN {"deprecated_no_warning"} ELSE {})
   \cup (IF (~cfg.dep \/ s.a.op \in {"read_target", "write_target", "delete_target"}) /\ s.warns > 0 THEN {"unexpected_warning"} ELSE {})
 RECURSIVE Run(_, _, _, _)
 Run(cfg, st, steps, i) == IF i > Len(steps) THEN {} ELSE LET s == steps[i] IN {<<i, c>> : c \in StepFail(cfg, st, s)} \cup Run(cfg, s.st, steps, i + 1)
-F == [i \in 1..NE |-> Run(Events[i].cfg, [target |-> I(1), ov |-> N], Events[i].steps, 1)]
+Init0(cfg) == [target |-> IF IsColl(cfg) THEN IL(<<1>>) ELSE I(1), ov |-> N]
+F == [i \in 1..NE |-> Run(Events[i].cfg, Init0(Events[i].cfg), Events[i].steps, 1)]
 BadIdx == {i \in 1..NE : F[i] # {}}
 Bad == UNION {{[i |-> i, c |-> f[2], d |-> ToString(f[1])] : f \in F[i]} : i \in BadIdx}
 Steps(P(_)) == FoldSeq(LAMBDA e, acc : acc + Cardinality({j \in 1..Len(e.steps) : P(e.steps[j])}), 0, Events)
